@@ -204,11 +204,130 @@ func genC13(cs *CaseSet, rng *Rng, tier string, dir string) {
 			return clients[toks[rng.Intn(len(toks))]]
 		}
 		limbo := map[int]bool{}
+		doAgreed := func(c *c13Client) {
+			name, icon := rng.Bytes(rng.Intn(10)), rng.Bytes(2)
+			opts := rng.Intn(8)
+			auto := rng.Bytes(1 + rng.Intn(8))
+			c.w.Send(121, RField{102, name}, RField{104, icon}, RField{113, be16(opts)}, RField{215, auto})
+			c.name, c.icon = name, icon
+			delete(limbo, c.tok)
+			actor = c
+			settle()
+			ops = append(ops, mkOp(3, "agreed", be16(c.tok), name, icon, be16(opts), auto))
+			obs = append(obs, inboxes())
+			sawChange = sawChange || fetchedAfter
+		}
+		doSetInfo := func(c *c13Client) {
+			name := rng.Bytes(rng.Intn(10))
+			icon := rng.Bytes(rng.Pick(2, 2, 4))
+			sameIdentity := c.name != nil && rng.Intn(3) == 0 // only the options change: name and icon are repeated
+			if sameIdentity {
+				name, icon = c.name, c.icon
+			}
+			fields := []RField{{102, name}, {104, icon}}
+			var optb []byte
+			auto := rng.Bytes(1 + rng.Intn(8))
+			if rng.Bool() || sameIdentity {
+				optb = be16(rng.Intn(8))
+				fields = append(fields, RField{113, optb}, RField{215, auto})
+			}
+			c.w.Send(304, fields...)
+			c.name, c.icon = name, icon
+			delete(limbo, c.tok)
+			actor = c
+			settle()
+			ops = append(ops, mkOp(4, "set-client-user-info", be16(c.tok), name, icon, optb, auto))
+			obs = append(obs, inboxes())
+			sawChange = sawChange || fetchedAfter
+		}
+		doDisconnect := func(c *c13Client) {
+			delete(clients, c.tok)
+			delete(limbo, c.tok)
+			c.w.c.Close()
+			c.w.WaitServerDone()
+			actor = nil
+			settle()
+			ops = append(ops, mkOp(5, "disconnect", be16(c.tok)))
+			obs = append(obs, inboxes())
+			sawDisc = sawDisc || fetchedAfter
+		}
+		doFetch := func(c *c13Client) {
+			id := c.w.Send(300)
+			var list []byte
+			dl := time.Now().Add(2 * time.Second)
+			for time.Now().Before(dl) {
+				fr, _ := c.w.Frames()
+				found := false
+				for _, f := range fr[c.seen:] {
+					if f.Reply == 1 && f.ID == id {
+						for _, u := range f.FieldsByID(300) {
+							if len(u) >= 8 {
+								n := int(u[6])<<8 | int(u[7])
+								list = append(list, u[0:2]...)
+								list = append(list, len16(u[2:4])...)
+								list = append(list, u[4:6]...)
+								list = append(list, len16(u[8:8+n])...)
+							}
+						}
+						found = true
+					}
+				}
+				if found {
+					break
+				}
+				time.Sleep(300 * time.Microsecond)
+			}
+			ops = append(ops, mkOp(6, "get-user-name-list", be16(c.tok)))
+			obs = append(obs, [][]byte{list})
+			fetchedAfter = true
+		}
+		// privilege change: an administrator edits an account somebody may be logged in to
+		doSetUser := func(c *c13Client) {
+			which := rng.Intn(2)
+			disc := rng.Bool()
+			acct, access := []string{"usr", "adm"}[which], noAdmin
+			if disc {
+				access = all
+			}
+			c.w.Send(353, RField{105, obfuscate([]byte(acct))}, RField{102, []byte(acct)}, RField{110, access[:]}, RField{106, []byte{0}})
+			actor = c
+			settle()
+			ops = append(ops, mkOp(9, "set-user", be16(c.tok), b1(which == 1), b1(disc)))
+			obs = append(obs, inboxes())
+			sawChange = sawChange || fetchedAfter
+		}
+		doPM := func(c *c13Client) {
+			var target []byte
+			if t := pick(); t != nil && t != c && rng.Intn(5) != 0 {
+				target = t.id
+			} else {
+				target = be16(40000 + rng.Intn(1000)) // nobody holds it
+			}
+			msg := rng.Bytes(1 + rng.Intn(20))
+			c.pendingPM = c.w.Send(108, RField{103, target}, RField{101, msg})
+			actor = c
+			settle()
+			ops = append(ops, mkOp(7, "send-instant-msg", be16(c.tok), target, msg))
+			obs = append(obs, inboxes())
+			c.pendingPM = 0
+		}
+		sortedClients := func() []*c13Client {
+			var toks []int
+			for t := range clients {
+				toks = append(toks, t)
+			}
+			sort.Ints(toks)
+			var out []*c13Client
+			for _, t := range toks {
+				out = append(out, clients[t])
+			}
+			return out
+		}
 		login(true)
 		nOps := 12 + rng.Intn(14)
 		for k := 0; k < nOps; k++ {
 			c := pick()
-			switch r := rng.Intn(12); {
+			switch r := rng.Intn(13); {
 			case r < 2 || c == nil:
 				login(true)
 			case r == 2:
@@ -220,92 +339,17 @@ func genC13(cs *CaseSet, rng *Rng, tier string, dir string) {
 						c = clients[t]
 					}
 				}
-				name, icon := rng.Bytes(rng.Intn(10)), rng.Bytes(2)
-				opts := rng.Intn(8)
-				auto := rng.Bytes(1 + rng.Intn(8))
-				c.w.Send(121, RField{102, name}, RField{104, icon}, RField{113, be16(opts)}, RField{215, auto})
-				c.name, c.icon = name, icon
-				delete(limbo, c.tok)
-				actor = c
-				settle()
-				ops = append(ops, mkOp(3, "agreed", be16(c.tok), name, icon, be16(opts), auto))
-				obs = append(obs, inboxes())
-				sawChange = sawChange || fetchedAfter
-			case r < 7: // SetClientUserInfo
-				name := rng.Bytes(rng.Intn(10))
-				icon := rng.Bytes(rng.Pick(2, 2, 4))
-				sameIdentity := c.name != nil && rng.Intn(3) == 0 // only the options change: name and icon are repeated
-				if sameIdentity {
-					name, icon = c.name, c.icon
-				}
-				fields := []RField{{102, name}, {104, icon}}
-				var optb []byte
-				auto := rng.Bytes(1 + rng.Intn(8))
-				if rng.Bool() || sameIdentity {
-					optb = be16(rng.Intn(8))
-					fields = append(fields, RField{113, optb}, RField{215, auto})
-				}
-				c.w.Send(304, fields...)
-				c.name, c.icon = name, icon
-				delete(limbo, c.tok)
-				actor = c
-				settle()
-				ops = append(ops, mkOp(4, "set-client-user-info", be16(c.tok), name, icon, optb, auto))
-				obs = append(obs, inboxes())
-				sawChange = sawChange || fetchedAfter
-			case r == 7 && len(clients) > 1: // disconnect
-				delete(clients, c.tok)
-				delete(limbo, c.tok)
-				c.w.c.Close()
-				c.w.WaitServerDone()
-				actor = nil
-				settle()
-				ops = append(ops, mkOp(5, "disconnect", be16(c.tok)))
-				obs = append(obs, inboxes())
-				sawDisc = sawDisc || fetchedAfter
-			case r < 10: // fetch the user list
-				id := c.w.Send(300)
-				var list []byte
-				dl := time.Now().Add(2 * time.Second)
-				for time.Now().Before(dl) {
-					fr, _ := c.w.Frames()
-					found := false
-					for _, f := range fr[c.seen:] {
-						if f.Reply == 1 && f.ID == id {
-							for _, u := range f.FieldsByID(300) {
-								if len(u) >= 8 {
-									n := int(u[6])<<8 | int(u[7])
-									list = append(list, u[0:2]...)
-									list = append(list, len16(u[2:4])...)
-									list = append(list, u[4:6]...)
-									list = append(list, len16(u[8:8+n])...)
-								}
-							}
-							found = true
-						}
-					}
-					if found {
-						break
-					}
-					time.Sleep(300 * time.Microsecond)
-				}
-				ops = append(ops, mkOp(6, "get-user-name-list", be16(c.tok)))
-				obs = append(obs, [][]byte{list})
-				fetchedAfter = true
-			default: // private message
-				var target []byte
-				if t := pick(); t != nil && t != c && rng.Intn(5) != 0 {
-					target = t.id
-				} else {
-					target = be16(40000 + rng.Intn(1000)) // nobody holds it
-				}
-				msg := rng.Bytes(1 + rng.Intn(20))
-				c.pendingPM = c.w.Send(108, RField{103, target}, RField{101, msg})
-				actor = c
-				settle()
-				ops = append(ops, mkOp(7, "send-instant-msg", be16(c.tok), target, msg))
-				obs = append(obs, inboxes())
-				c.pendingPM = 0
+				doAgreed(c)
+			case r < 7:
+				doSetInfo(c)
+			case r == 7 && len(clients) > 1:
+				doDisconnect(c)
+			case r < 10:
+				doFetch(c)
+			case r == 12:
+				doSetUser(c)
+			default:
+				doPM(c)
 			}
 			if wrapHistory && k == nOps/2 {
 				// more than 65,536 connections over the server's lifetime while these clients stay connected
@@ -317,6 +361,34 @@ func genC13(cs *CaseSet, rng *Rng, tier string, dir string) {
 				ops = append(ops, mkOp(8, "churn", be32(n)))
 				obs = append(obs, [][]byte{})
 			}
+		}
+		// epilogue - "once traffic settles": everybody completes login and fetches the list, a few more changes of
+		// every kind happen, and everybody fetches again: each client's folded roster must be the fresh list
+		for _, c := range sortedClients() {
+			if limbo[c.tok] {
+				doAgreed(c)
+			}
+		}
+		for _, c := range sortedClients() {
+			doFetch(c)
+		}
+		for i, n := 0, 3+rng.Intn(3); i < n; i++ {
+			c := pick()
+			switch r := rng.Intn(5); {
+			case r == 0:
+				login(true)
+			case r == 1:
+				doSetInfo(c)
+			case r == 2 && len(clients) > 1:
+				doDisconnect(c)
+			case r == 3:
+				doAgreed(c)
+			default:
+				doSetUser(c)
+			}
+		}
+		for _, c := range sortedClients() {
+			doFetch(c)
 		}
 		kind := "history"
 		if wrapHistory {
